@@ -242,10 +242,15 @@ def _exec_function(case):
         s_in = absmax_scale(x, iq)
         s_in = torch.where(s_in > 0, s_in, torch.ones_like(s_in))
         inp = quantize_activation(x, iq, s_in)
-    with torch.no_grad():
+    # the autograd mode the caller happens to be in must not matter for the values: no_grad, inference_mode or grad enabled
+    gm = ["no_grad", "no_grad", "inference_mode", "grad"][case["seed"] % 4]
+    out.klass.append(f"mode-{gm}")
+    with {"no_grad": torch.no_grad, "inference_mode": torch.inference_mode, "grad": torch.enable_grad}[gm]():
         y = cut(model, inp)
+    if not isinstance(y, Raised):
+        y = y.detach()
     if isinstance(y, Raised):
-        return out.fail(f"{tag}/forward-raises:{y.type}/{'q-input' if isinstance(inp, QTensor) else 'float-input'}", f"{y.text} (weights {case['wq']}, activations {case['aq']}, {case['dtype']}, {hpk})")
+        return out.fail(f"{tag}/forward-raises:{y.type}/{'q-input' if isinstance(inp, QTensor) else 'float-input'}{'' if gm == 'no_grad' else '/' + gm}", f"{y.text} (weights {case['wq']}, activations {case['aq']}, {case['dtype']}, {hpk})")
     # ---- reference
     if kind == "ln":
         w64 = None if qm.weight is None else qm.weight.detach().to(torch.float64)
